@@ -10,6 +10,7 @@ package c14
 
 import (
 	"encoding/xml"
+	"errors"
 	"fmt"
 	"io"
 	"reflect"
@@ -311,14 +312,24 @@ const (
 type prog struct {
 	mode int
 	k    int
+	// the handler returns an error of its own after reading
+	fail bool
 }
+
+var errHandlerFailed = errors.New("verif: this handler fails")
 
 func (p prog) String() string {
 	switch p.mode {
 	case readNone:
 		return "none"
 	case readSome:
+		if p.fail {
+			return fmt.Sprintf("some(%d)+fails", p.k)
+		}
 		return fmt.Sprintf("some(%d)", p.k)
+	}
+	if p.fail {
+		return "all+fails"
 	}
 	return "all"
 }
@@ -340,16 +351,25 @@ type recorder struct {
 	progs  []prog
 	events []event
 	limit  int
+	// the invocations beyond the listed programs fail too
+	failRest bool
 }
 
 // read executes the next read program on t.  Read errors other than io.EOF are
 // propagated to the caller (the multiplexer).
-func (r *recorder) read(e *event, t xml.TokenReader) error {
-	p := prog{mode: readAll}
+func (r *recorder) read(e *event, t xml.TokenReader) (err error) {
+	p := prog{mode: readAll, fail: r.failRest}
 	if n := len(r.events); n < len(r.progs) {
 		p = r.progs[n]
 	}
 	e.prog = p
+	if p.fail {
+		defer func() {
+			if err == nil {
+				err = errHandlerFailed
+			}
+		}()
+	}
 	want := 0
 	switch p.mode {
 	case readSome:
@@ -573,6 +593,8 @@ type tcase struct {
 	// it directly (as disco.Handle does), not built by mux.New: it has no stanza
 	// namespace and routes the stanzas of any
 	zeroValue bool
+	// every handler invocation beyond the listed read programs returns an error
+	failRest bool
 }
 
 func (c tcase) canon() string {
@@ -581,7 +603,7 @@ func (c tcase) canon() string {
 		ps[i] = p.String()
 	}
 	sort.Strings(ps)
-	return fmt.Sprintf("%s|%s|%s|%v|%v|%v|%v", c.stanzaNS, strings.Join(ps, ","), c.xml, c.progs, c.live, c.lastWithEOF, c.zeroValue)
+	return fmt.Sprintf("%s|%s|%s|%v|%v|%v|%v|%v", c.stanzaNS, strings.Join(ps, ","), c.xml, c.progs, c.live, c.lastWithEOF, c.zeroValue, c.failRest)
 }
 
 func (c tcase) describe() string {
@@ -598,7 +620,7 @@ func (c tcase) describe() string {
 		}
 		fmt.Fprintf(&b, "  h%d = %s%s\n", i, p, f)
 	}
-	fmt.Fprintf(&b, "input: %s\nread programs per invocation: %v (then all); live decoder: %v\n", c.xml, c.progs, c.live)
+	fmt.Fprintf(&b, "input: %s\nread programs per invocation: %v (then all; failing: %v); live decoder: %v\n", c.xml, c.progs, c.failRest, c.live)
 	return b.String()
 }
 
@@ -695,7 +717,7 @@ func runCase(t failer, c tcase, classify func(facts, expect)) {
 		ev.Failf(t, "%s%s", c.describe(), fmt.Sprintf(format, args...))
 	}
 
-	rec := &recorder{progs: c.progs, limit: len(f.ref) + 50}
+	rec := &recorder{progs: c.progs, limit: len(f.ref) + 50, failRest: c.failRest}
 	opts := make([]mux.Option, len(c.cfg))
 	var m *mux.ServeMux
 	if p := ev.Guard(func() {
@@ -829,8 +851,17 @@ func runCase(t failer, c tcase, classify func(facts, expect)) {
 	} else if len(out) != 0 {
 		fail("expected nothing to be written, multiplexer wrote %s", toksString(out))
 	}
-	if herr != nil {
+	failed := 0
+	for _, e := range rec.events {
+		if e.prog.fail {
+			failed++
+		}
+	}
+	if herr != nil && failed == 0 {
 		fail("HandleXMPP returned %v although every handler returned nil and the input is well formed", herr)
+	}
+	if herr == nil && failed > 0 {
+		fail("%d handlers returned an error but HandleXMPP returned nil", failed)
 	}
 }
 
@@ -1031,7 +1062,7 @@ func genStanza(t *rapid.T, stanzaNS string, k kind, typ string) *elem {
 			}
 		}
 	default:
-		n := rapid.SampledFrom([]int{0, 1, 1, 2, 2, 2, 3, 3, 4}).Draw(t, "nKids")
+		n := rapid.SampledFrom([]int{0, 1, 1, 2, 2, 2, 3, 3, 4, 4, 11, 12, 26}).Draw(t, "nKids")
 		for i := 0; i < n; i++ {
 			if rapid.IntRange(0, 3).Draw(t, "textBefore") == 0 {
 				e.kids = append(e.kids, node{text: genText(t)})
@@ -1078,6 +1109,7 @@ func genProgs(t *rapid.T, max int) []prog {
 		default:
 			ps[i] = prog{mode: readAll}
 		}
+		ps[i].fail = rapid.IntRange(0, 5).Draw(t, "handlerFails") == 0
 	}
 	return ps
 }
@@ -1190,6 +1222,7 @@ func genCase(t *rapid.T) tcase {
 	}
 	c.xml = e.String()
 	c.progs = genProgs(t, 12)
+	c.failRest = rapid.IntRange(0, 3).Draw(t, "failRest") == 0
 	c.live = rapid.Bool().Draw(t, "live")
 	c.lastWithEOF = !c.live && rapid.Bool().Draw(t, "lastWithEOF")
 	// (a top-level element that merely has a stanza's local name would be a
@@ -1474,9 +1507,9 @@ func TestC14Regress(t *testing.T) {
 		{cfg: []pat{{kPres, "", pn("x", "")}, {kPres, "", pn("", "a")}, {kPres, "", pn("", "")}}, xml: `<presence xmlns="jabber:client"><a xmlns="x"/></presence>`},
 		// everything registered, three payloads, partial reads
 		{cfg: all(kMsg, "normal"), xml: `<message xmlns="jabber:client" id="i1"><a xmlns="x">t</a> txt <c xmlns="y"/><b xmlns="z"><a xmlns="x"/></b></message>`,
-			progs: []prog{{readSome, 3}, {readAll, 0}, {readSome, 1}}},
+			progs: []prog{{mode: readSome, k: 3}, {mode: readAll}, {mode: readSome, k: 1}}},
 		{cfg: all(kPres, "subscribe"), xml: `<presence xmlns="jabber:client" type="subscribe"><c xmlns="z"/><c xmlns="z"/></presence>`,
-			progs: []prog{{readAll, 0}, {readAll, 0}}},
+			progs: []prog{{mode: readAll}, {mode: readAll}}},
 		// empty stanzas go to the type wildcard only
 		{cfg: all(kMsg, "chat"), xml: `<message xmlns="jabber:client" type="chat"/>`},
 		{cfg: all(kPres, ""), xml: `<presence xmlns="jabber:server" type=""></presence>`, stanzaNS: stanza.NSServer},
